@@ -19,8 +19,15 @@ package server
 //@   pure
 //@   gmodifies probeN, probeFound
 //@   gensures probeN == old(probeN) + 1 && (probeFound <==> result0)
+// depN counts validated action-cache lookups by the current invocation, depHit tells whether the last
+// one was a hit (data returned, no error), depHash is the key it was made with.
+//@ ghost depN Int
+//@ ghost depHit Bool
+//@ ghost depHash GStr
 //@ iface (github.com/buchgr/bazel-remote/v2/cache/disk.Cache).GetValidatedActionResult(c, ctx, hash)
 //@   pure
+//@   gmodifies depN, depHit, depHash
+//@   gensures depN == old(depN) + 1 && (depHit <==> (arr(result1) != 0 && result2 == nil)) && depHash == hash
 //@ extern (*net/http.Request).Context(r)
 //@   pure
 //@   ensures result != nil
@@ -70,14 +77,14 @@ package server
 //@   requires h != nil && h.cache != nil && h.accessLogger != nil && w != nil
 //@   requires serverrequest: r != nil && r.URL != nil
 //@   noframe
-//@   call WriteHeader#* asserts[C06] hitonly: arg1 == 200 && arr(data) != 0 && err == nil
+//@   call WriteHeader#* asserts[C06] hitonly: arg1 == 200 && depN == old(depN) + 1 && depHit && depHash == hash
 
 //@ func (h *httpCache) handleGetValidAC(w http.ResponseWriter, r *http.Request, hash string)
 //@   serves C06 C14
 //@   requires h != nil && h.cache != nil && h.accessLogger != nil && w != nil
 //@   requires serverrequest: r != nil && r.URL != nil
 //@   noframe
-//@   call Write#* asserts[C06] hitonly: arr(data) != 0
+//@   call Write#* asserts[C06] hitonly: depN == old(depN) + 1 && depHit && depHash == hash
 
 //@ pred certOKHere() = certN == old(certN) + 1 && certChecked
 
